@@ -3169,7 +3169,14 @@ class Map(TraitType):
         return self.map[value]
 
     def post_setattr(self, object, name, value):
-        setattr(object, name + "_", self.mapped_value(value))
+        try:
+            mapped_value = self.mapped_value(value)
+        except (KeyError, TypeError):
+            # Inside a compound trait the value may have been accepted by
+            # another alternative: TraitCompound expects a TraitError then
+            # (as raised by the TraitMap handler).
+            raise TraitError("Unmappable")
+        setattr(object, name + "_", mapped_value)
 
     def info(self):
         keys = sorted(repr(x) for x in self.map.keys())
@@ -3295,7 +3302,14 @@ class PrefixMap(TraitType):
         return self.map[value]
 
     def post_setattr(self, object, name, value):
-        setattr(object, name + "_", self.mapped_value(value))
+        try:
+            mapped_value = self.mapped_value(value)
+        except (KeyError, TypeError):
+            # Inside a compound trait the value may have been accepted by
+            # another alternative: TraitCompound expects a TraitError then
+            # (as raised by the TraitMap handler).
+            raise TraitError("Unmappable")
+        setattr(object, name + "_", mapped_value)
 
     def info(self):
         return (
